@@ -47,6 +47,10 @@ struct Anon { struct { int x; }; union { int y; float z; }; struct { int q; } na
 struct Outer { struct Inner { int v; } in; };
 union NC { struct S s; int k; };
 void other_fn(void); int other_var;
+__attribute__((ms_abi)) int fn_ms(int a, int b);
+__attribute__((ms_abi)) int fn_ms2(double d);
+#define M_SIZEOF sizeof(int)
+#define M_CAST ((unsigned char)300)
 '''
 
 FEAT_CPP = r'''
@@ -184,6 +188,14 @@ def rows():
     add("override-abi", ["--override-abi", "fn_a=stdcall"], [["override_abi", "stdcall", "fn_a"]], "str")
     add("override-abi-x2-overlap", ["--override-abi", "fn_.*=system", "--override-abi", "fn_a=win64", "--override-abi", ".*=C-unwind"],
         [["override_abi", "system", "fn_.*"], ["override_abi", "win64", "fn_a"], ["override_abi", "C-unwind", ".*"]], "str")
+    # an override back to the DEFAULT ABI is not a no-op when the function's own convention is another one
+    add("override-abi-to-C", ["--override-abi", "fn_ms=C"], [["override_abi", "C", "fn_ms"]], "str")
+    add("override-abi-C-under-broad", ["--override-abi", "fn_ms.*=system", "--override-abi", "fn_ms2=C"], [["override_abi", "system", "fn_ms.*"], ["override_abi", "C", "fn_ms2"]], "str")
+    # options whose effect depends on the file system: a scratch directory that does not exist (nothing may create it as a side effect)
+    add("macro-fallback-absent-dir", ["--clang-macro-fallback", "--clang-macro-fallback-build-dir", "@JOBDIR@/absent"],
+        [["clang_macro_fallback"], ["clang_macro_fallback_build_dir", "@JOBDIR@/absent"]], "str")
+    add("macro-fallback-existing-dir", ["--clang-macro-fallback", "--clang-macro-fallback-build-dir", "@WD@"],
+        [["clang_macro_fallback"], ["clang_macro_fallback_build_dir", "@WD@"]], "str")
     add("depfile", ["--depfile", "@WD@/out.d", "-o", "@WD@/out.rs"], [["depfile", "@WD@/out.rs", "@WD@/out.d"]], "str")
     add("rustfmt-configuration-file", ["--rustfmt-configuration-file", "@WD@/rustfmt.toml"], [["rustfmt_configuration_file", "@WD@/rustfmt.toml"]], "str")
     add("wrap-static-fns-path", ["--wrap-static-fns", "--wrap-static-fns-path", "@WD@/wrap"], [["wrap_static_fns", True], ["wrap_static_fns_path", "@WD@/wrap"]], "str")
@@ -205,11 +217,11 @@ def rows():
 DEFAULT_ROW = {"name": "defaults", "flags": [], "ops": [], "domain": "one"}
 
 
-def subst(x, wd):
+def subst(x, wd, job=None):
     if isinstance(x, str):
-        return x.replace("@WD@", wd)
+        return x.replace("@JOBDIR@", os.path.join(wd, "jobdirs", job or "j")).replace("@WD@", wd)
     if isinstance(x, list):
-        return [subst(y, wd) for y in x]
+        return [subst(y, wd, job) for y in x]
     return x
 
 
@@ -224,17 +236,21 @@ def new_check(tier):
 def make_jobs(row, hdrs, wd, jid):
     """(roundtrip job per header, flagcmp job per header)"""
     jobs = []
-    flags = subst(row["flags"], wd)
-    ops = subst(row["ops"], wd)
-    clang_tail = []
-    if "--" in flags:
-        i = flags.index("--")
-        flags, clang_tail = flags[:i], flags[i:]
     for hk, hp in hdrs.items():
-        hops = [["header", hp]] + ops
-        hflags = [hp] + flags + clang_tail
-        jobs.append({"id": f"R|{jid}|{hk}", "mode": "roundtrip", "ops": hops})
-        jobs.append({"id": f"F|{jid}|{hk}", "mode": "flagcmp", "flags": hflags, "ops": hops})
+        for kind in ("R", "F"):
+            # @JOBDIR@ is a path that does not exist and belongs to this job alone (side effects of one job cannot help another)
+            flags = subst(row["flags"], wd, f"{kind}{jid}{hk}")
+            ops = subst(row["ops"], wd, f"{kind}{jid}{hk}")
+            clang_tail = []
+            if "--" in flags:
+                i = flags.index("--")
+                flags, clang_tail = flags[:i], flags[i:]
+            hops = [["header", hp]] + ops
+            hflags = [hp] + flags + clang_tail
+            if kind == "R":
+                jobs.append({"id": f"R|{jid}|{hk}", "mode": "roundtrip", "ops": hops})
+            else:
+                jobs.append({"id": f"F|{jid}|{hk}", "mode": "flagcmp", "flags": hflags, "ops": hops})
     return jobs
 
 
